@@ -29,9 +29,7 @@ TRUSTED = ['np.fft.fft2 / ifft2 are the un-normalised DFT and its inverse with o
            'np.sinc(x) = sin(πx)/(πx); np.meshgrid(x, y) puts x along columns (all modelled in Model/Blur.lean, observed through the correspondence)']
 UNPROVEN = ['blur_commutes_with_roll (DFT shift theorem on the model) — oracle only',
             'equals_convolution_when_hermitian and the even-axis Nyquist remainder: that the output equals the exact circular '
-            'convolution when that is non-negative — oracle only (compared with an independent Fourier-domain convolution)',
-            'renormalised_total_preserved is proved under the hypothesis Σ out ≠ 0; that Σ out ≥ Σ img > 0 (DC gain 1 and the triangle '
-            'inequality) is not proved']
+            'convolution when that is non-negative — oracle only (compared with an independent Fourier-domain convolution)']
 ASSUMPTIONS = ['images are non-negative with positive total (an all-zero image makes jitter/smear return 0/0)', 'shapes at least 1x1',
                'pixelscale ≠ 0; smear angle is given (angle=None draws a random direction and is not covered)']
 
